@@ -214,3 +214,70 @@ func TestTaskExecutorReplaceKeepsLast(t *testing.T) {
 		stats.Case(check, sameTime, desc, func() any { return desc })
 	})
 }
+
+// TestTaskExecutorBoundedReplace: on a TaskExecutor with a queue bound, re-scheduling an identifier whose task is
+// pending replaces that task - the number of queued tasks does not grow, so nothing may be dropped by the bound.
+func TestTaskExecutorBoundedReplace(t *testing.T) {
+	const check = "taskexecutor_bounded_replace"
+	stats.Rule(check, "one worker, queue bound n in 1..4: identifier 0 is scheduled first and the harness waits (bounded, steering only; otherwise the case is not judged) until the worker has taken it out of the queue; then n more identifiers are scheduled (the queue now holds exactly n = bound tasks) and 1..4 of them are re-scheduled with new callbacks and times from a grid; everything is issued >= 5 ms before the earliest due time (else not judged); waiting Shutdown under the 20 s watchdog. Oracle: for every identifier exactly the callback of its last scheduling ran, once; no task was dropped (the queue never held more than n tasks). Distinct by configuration; non-trivial = every judged case")
+	rapid.Check(t, func(rt *rapid.T) {
+		n := rapid.IntRange(1, 4).Draw(rt, "bound")
+		type call struct{ id, slot int }
+		var calls []call
+		for id := 1; id <= n; id++ {
+			calls = append(calls, call{id, rapid.IntRange(0, 2).Draw(rt, "slot")})
+		}
+		for i, k := 0, rapid.IntRange(1, 4).Draw(rt, "reschedules"); i < k; i++ {
+			calls = append(calls, call{rapid.IntRange(1, n).Draw(rt, "id"), rapid.IntRange(0, 2).Draw(rt, "slot")})
+		}
+		var parts []string
+		for _, c := range calls {
+			parts = append(parts, fmt.Sprintf("at(id=%d,T%d)", c.id, c.slot))
+		}
+		desc := fmt.Sprintf("bound=%d at(id=0,held by the worker) %s", n, strings.Join(parts, " "))
+		failf := func(format string, a ...any) {
+			msg := fmt.Sprintf(format, a...)
+			stats.Violation(check, map[string]any{"config": desc, "problem": msg})
+			rt.Fatalf("%s: %s", desc, msg)
+		}
+		ex := timed.NewTaskExecutor[int](1, timed.WithMaxQueueSize(n))
+		base := time.Now()
+		grid := []time.Time{base.Add(70 * time.Millisecond), base.Add(80 * time.Millisecond), base.Add(90 * time.Millisecond)}
+		var mu sync.Mutex
+		ran := map[int]int{} // call index (-1 = identifier 0) -> runs
+		ex.ExecuteAt(0, func() { mu.Lock(); ran[-1]++; mu.Unlock() }, base.Add(100*time.Millisecond))
+		if !awaitFlag(func() bool { return ex.Size() == 0 }, 40*time.Millisecond) {
+			ex.Shutdown(timed.CancelPendingElements)
+			stats.Case(check, false, "", nil, "worker_did_not_take_the_first_task_not_judged")
+			return
+		}
+		last := map[int]int{}
+		for k, c := range calls {
+			k := k
+			ex.ExecuteAt(c.id, func() { mu.Lock(); ran[k]++; mu.Unlock() }, grid[c.slot])
+			last[c.id] = k
+		}
+		if grid[0].Sub(time.Now()) < 5*time.Millisecond {
+			ex.Shutdown(timed.CancelPendingElements)
+			stats.Case(check, false, "", nil, "indefinite_timing_not_judged")
+			return
+		}
+		if !ctl.WithinHang(func() { ex.Shutdown() }) {
+			failf("waiting Shutdown did not return within %v after the due times\n%s", ctl.HangTimeout, ctl.Dump())
+		}
+		mu.Lock()
+		defer mu.Unlock()
+		if ran[-1] != 1 {
+			failf("the task of identifier 0 ran %d times, want 1", ran[-1])
+		}
+		for k, c := range calls {
+			switch {
+			case last[c.id] == k && ran[k] != 1:
+				failf("call %d (the last scheduling of identifier %d) ran %d times, want 1: the queue held at most %d tasks at any time (bound %d), so the size bound cannot have dropped it", k, c.id, ran[k], n, n)
+			case last[c.id] != k && ran[k] != 0:
+				failf("call %d for identifier %d ran although call %d replaced it while it was pending", k, c.id, last[c.id])
+			}
+		}
+		stats.Case(check, true, desc, func() any { return desc })
+	})
+}
